@@ -163,6 +163,15 @@ def gen_config(rng, case, allow_irresolute=True):
     enum = list(range(m))
     rng.shuffle(enum)
     case["enum"] = enum
+    # a feasible initial budget allocation (mostly empty)
+    init = []
+    if rng.random() < 0.15:
+        left = pb.F(case["budget"])
+        for j in rng.sample(range(m), rng.randrange(1, min(m, 3) + 1)):
+            if pb.F(case["costs"][j]) <= left:
+                init.append(j)
+                left -= pb.F(case["costs"][j])
+    case["init"] = init
     case["sat_mode"] = rng.choice(["class", "profile"])
     return case
 
@@ -213,6 +222,9 @@ def call_rule(case, inst, prof, cls, sp, rule, analytics=False):
               analytics=analytics)
     if case.get("inc") is not None:
         kw["voter_budget_increment"] = pb.num(case["inc"])
+    if case.get("init"):
+        kw["initial_budget_allocation"] = [p for p in inst if pb.rank(p) in case["init"]]
+        kw["initial_budget_allocation"].sort(key=lambda p: case["init"].index(pb.rank(p)))
     if case.get("sat_mode") == "profile":
         kw["sat_profile"] = sp
     else:
@@ -246,12 +258,13 @@ def measure(case, utils, mults, keys):
     n = sum(mults)
     nv = len(U)
     B = pb.F(case["budget"])
-    b = [B / n] * nv
     m = len(costs)
+    init = case.get("init", [])
+    b = [(B - sum((costs[j] for j in init), Fraction(0))) / n] * nv
     sups = {p: [i for i in range(nv) if U[i][p] > 0] for p in range(m)}
-    pool = [p for p in range(m) if sups[p] and costs[p] > 0]
+    pool = [p for p in range(m) if sups[p] and costs[p] > 0 and p not in init]
     flags = {"mixed": False, "tie": False, "lazy": False, "lazy_tie": False,
-             "zero_cost": any(sups[p] and costs[p] == 0 for p in range(m)),
+             "zero_cost": any(sups[p] and costs[p] == 0 and p not in init for p in range(m)), "init": bool(init),
              "unaffordable": False, "rounds": 0, "nonuniform_util": False, "mult2": any(x >= 2 for x in mults)}
     for p in pool:
         if len({U[i][p] for i in sups[p]}) > 1:
